@@ -119,6 +119,36 @@ STRAY_FORM = {'Debug': ['Debug', 'Debug(ignore)'], 'Clone': ['Clone', 'Clone(met
               'Deref': ['Deref'], 'DerefMut': ['DerefMut'], 'Into': ['Into(u8)']}
 
 
+def named_traits(text):
+    """the leading identifier of every top-level entry of every #[educe(...)] attribute in an item"""
+    out = []
+    i = 0
+    while True:
+        i = text.find('#[educe(', i)
+        if i < 0:
+            return out
+        j = i + len('#[educe(')
+        depth, start = 0, j
+        while j < len(text):
+            c = text[j]
+            if c in '([{':
+                depth += 1
+            elif c in ')]}':
+                if depth == 0:
+                    break
+                depth -= 1
+            elif c == ',' and depth == 0:
+                out.append(text[start:j].strip())
+                start = j + 1
+            elif c == '"':
+                j = text.find('"', j + 1)
+            j += 1
+        out.append(text[start:j].strip())
+        out[:] = [o for o in out if o]
+        i = j
+    return out
+
+
 def stray_corpus():
     """(E, D, base text, text with the stray attribute, position tag)"""
     out = []
@@ -208,6 +238,24 @@ def check(v, tier):
         badb = [(b, r.get('msg')) for b, r in zip(bases, bref) if r['st'] != 'ok']
         guard(not badb, 'stray-attribute corpus: a base request is refused by the all-features build: %s' % badb[:3])
         corp += [(frozenset([e, d]), t) for e, d, b, t, pos in stray]
+        # requests the all-features build refuses (the C13 space): a build that has all the traits involved must refuse them with the same message
+        import re
+        from . import c13
+        rej = c13.generate('quick')
+        keep = [r_ for k, r_ in enumerate(rej) if r_[0] in ('trait-twice', 'trait-twice-field', 'into-twice', 'designation', 'unit-variant', 'union', 'debug-nameless') or k % 3 == 0]
+        rtexts = sorted({r_[2] for r_ in keep if r_[0] != 'unknown-trait'})
+        lenient = set()      # inputs that carry another offence besides (possibly) naming a disabled trait: whichever is met first may be reported
+        rref = xp.expand_all(binary_all, rtexts)
+        nrej = 0
+        for t, r_ in zip(rtexts, rref):
+            if r_['st'] == 'err' and 'available traits' not in r_.get('msg', ''):
+                import re as _re
+                used = frozenset(m.group(0) for m in (_re.match(r'[A-Za-z_][A-Za-z0-9_]*', e) for e in named_traits(t)) if m and m.group(0) in FEATS)
+                if used:
+                    corp.append((used, t))
+                    lenient.add(t)
+                    nrej += 1
+        v.notes['refused_inputs_from_the_C13_space'] = nrej
         ref = xp.expand_all(binary_all, [t for _, t in corp])
         guard(sum(1 for r in ref[:nplain] if r['st'] == 'ok') > 0.9 * nplain, 'the all-features build refuses too much of the corpus')
         notused = sum(1 for r in ref[nplain:] if r['st'] == 'err' and 'is not used' in r.get('msg', ''))
@@ -271,7 +319,9 @@ def check(v, tier):
                     same += 1
                 else:
                     missing = [t for t in FEATS if t in used and t not in sub]
-                    if r['st'] != 'err' or 'unsupported trait' not in r.get('msg', '') or not any('`%s`' % m in r['msg'].split('available traits')[0] for m in missing):
+                    if text in lenient and r['st'] == 'err' and (r.get('msg') == a.get('msg') or 'unsupported trait' in r.get('msg', '')):
+                        pass
+                    elif r['st'] != 'err' or 'unsupported trait' not in r.get('msg', '') or not any('`%s`' % m in r['msg'].split('available traits')[0] for m in missing):
                         problem = problem or 'an input naming the disabled trait(s) %s is not rejected as unsupported: %s %s\n%s' % (missing, r['st'], (r.get('msg') or r.get('raw') or '')[:300], text)
                     refused += 1
             v.cov['traces_validated_against_impl'] += 1
@@ -295,7 +345,7 @@ def check(v, tier):
     return v.finish('build half: feature subsets (quick: size <= 2, >= 10, every coupled pair with and without its partner in four contexts; thorough: all 4096) compiled as a '
                     'proc-macro crate with cargo\'s own extern / check-cfg arguments: no error, no warning; the empty set must fail with the explicit message. Behaviour half: for '
                     'a selection of subsets the crate is built as an rlib under the hook cfg and linked to the in-process driver; a corpus (every trait-group configuration and '
-                    'pairs of groups on the catalogue shapes, stand-alone companions; and stray attributes: a request educing one trait E with one attribute naming another trait D on a struct field, tuple-struct field, tuple-variant field, named-variant field, variant (default and non-default variants under Default) or union field, every ordered pair (E, D) in bare and parameterised form) is expanded: inputs whose traits are all enabled must expand exactly as in the all-features '
+                    'pairs of groups on the catalogue shapes, stand-alone companions; and stray attributes: a request educing one trait E with one attribute naming another trait D on a struct field, tuple-struct field, tuple-variant field, named-variant field, variant (default and non-default variants under Default) or union field, every ordered pair (E, D) in bare and parameterised form) and requests the all-features build refuses, taken from the C13 space: duplicate traits / parameters / ranks / targets, wrong designations, misplaced parameters, ...) is expanded: inputs whose traits are all enabled must expand — or be refused — exactly as in the all-features '
                     'build, the others must be refused naming a disabled trait as unsupported; non-trivial = subset with both kinds of input',
                     {'bounds': {'tier': tier}})
 def replay(path):
